@@ -28,7 +28,9 @@ def run(ctx, focus='C11'):
     from lib_scorer.omen_scorer import OmenScorer
     from lib_guesser.omen.optimizer import Optimizer
     root = common.scratch_dir('rules')
+    saved_in = {}
     for i in range(ctx.scale(50, 300)):
+        n_before = len(viol)
         pws, ngram, mode, maxlen = ct.gen_training(rng)
         asize = rng.choice([100, 100, 2, 3])
         if i == 0:
@@ -37,6 +39,8 @@ def run(ctx, focus='C11'):
             pws = ['anna', 'annan', 'nana', 'banana', 'bandana', 'anna', 'nan', 'ana', 'banana', 'bananas', 'ban', 'band', 'bands',
                    'sand', 'sands', 'and']
             ngram, mode, maxlen, asize = 3, 'wordlike', 21, 100
+        if i == 1 and ngram == 3:
+            ngram = 4 if all(len(p_) >= 1 for p_ in pws) and any(len(p_) >= 4 for p_ in pws) else 2
         try:
             al, alphabet = ct.build(pws, ngram, asize, maxlen)
         except ZeroDivisionError:
@@ -46,12 +50,18 @@ def run(ctx, focus='C11'):
         with contextlib.redirect_stdout(io.StringIO()):
             ks = calc_omen_keyspace(al) if focus == 'C11' else calc_omen_keyspace(al, max_keyspace=rng.choice([10 ** 10, 10 ** 10, 30, 200]))
         lc = Counter(find_omen_level(al, p) for p in pws)
-        rd = os.path.join(root, f"c11_{i % 10}")
-        if os.path.exists(rd):
+        # every third ruleset (and always the second one) is saved over the directory of an earlier one - re-training under the same
+        # rule name, usually with another n-gram size: nothing of the earlier OMEN files, Omen/config.txt included, may survive
+        over = (i == 1) or (i % 3 == 2 and i >= 10)
+        rd = os.path.join(root, f"c11_{0 if i == 1 else i % 10}")
+        if os.path.exists(rd) and not over:
             import shutil
             shutil.rmtree(rd)
-        os.makedirs(rd)
+        os.makedirs(rd, exist_ok=True)
+        dist['saved_over_existing'] = dist.get('saved_over_existing', 0) + int(over and os.path.exists(os.path.join(rd, 'Omen')))
         rule_enc = 'cp1251' if (any('а' <= ch <= 'я' for p_ in pws for ch in p_) and i % 2 == 0) else 'utf-8'
+        prev_here = saved_in.get(rd) if over else None
+        saved_in[rd] = {'passwords': pws, 'ngram': ngram, 'alphabet_size': asize, 'max_length': maxlen}
         ct.save_rules(al, alphabet, ks, lc, len(pws), rd, ngram, rule_enc)
         pre = ct.trainer_ops(al)
         ops += pre
@@ -156,6 +166,10 @@ def run(ctx, focus='C11'):
             nontrivial += 1
         if len(samples) < 3:
             samples.append({'passwords': pws[:6], 'ngram': ngram, 'levels': [(s, find_omen_level(al, s)) for s in cands[:6]], 'enumerated_up_to': lmax})
+        if prev_here is not None:
+            for v_ in viol[n_before:]:
+                if isinstance(v_.get('witness'), dict):
+                    v_['witness']['previous'] = prev_here      # the ruleset directory already held this earlier ruleset
     if ctx.driver_ok:
         out = common.run_driver(ops)
         for i, (a, b) in enumerate(zip(out, exp)):
@@ -187,15 +201,29 @@ def replay(ctx, payload, focus='C11'):
     common.use_impl()
     from lib_trainer.omen.evaluate_password import find_omen_level, calc_omen_keyspace
     from lib_guesser.omen.optimizer import Optimizer
-    al, alphabet = ct.build(w['passwords'], w['ngram'], w.get('alphabet_size', 100), w.get('max_length', 21))
-    with contextlib.redirect_stdout(io.StringIO()):
-        ks = calc_omen_keyspace(al)
     rd = os.path.join(common.scratch_dir('rules'), 'replay11')
     import shutil
     shutil.rmtree(rd, ignore_errors=True)
     os.makedirs(rd)
+    if w.get('previous'):
+        pv = w['previous']
+        alp, alphp = ct.build(pv['passwords'], pv['ngram'], pv.get('alphabet_size', 100), pv.get('max_length', 21))
+        with contextlib.redirect_stdout(io.StringIO()):
+            ksp = calc_omen_keyspace(alp)
+        ct.save_rules(alp, alphp, ksp, Counter(), len(pv['passwords']), rd, pv['ngram'])
+    al, alphabet = ct.build(w['passwords'], w['ngram'], w.get('alphabet_size', 100), w.get('max_length', 21))
+    with contextlib.redirect_stdout(io.StringIO()):
+        ks = calc_omen_keyspace(al)
     ct.save_rules(al, alphabet, ks, Counter(), len(w['passwords']), rd, w['ngram'])
     out = []
+    if focus == 'C11' and 'string' in w:
+        # the guesser's view of the saved files: the string is emitted at exactly the trainer's level (small levels only)
+        t_ = find_omen_level(al, w['string'])
+        if 0 <= t_ <= 8:
+            g_ = corr_omen.load_real(os.path.join(rd, 'Omen'))
+            gs_ = corr_omen.real_enum(g_, t_, Optimizer(4), limit=50000)
+            if gs_ is not None and len(gs_) < 50000 and w['string'] not in gs_:
+                out.append({'kind': 'guesser-level-differs', 'trainer': t_})
     if focus == 'C11' and 'string' in w:
         from lib_scorer.omen_scorer import OmenScorer
         with contextlib.redirect_stderr(io.StringIO()):
